@@ -215,7 +215,11 @@ def tpl_conv(x1, a1, x2, a2, x3, a3, x4, a4, _twin=False):
                 if text is None:
                     continue
                 w.op("convert", text)
-                got = conv(text)
+                try:
+                    got = conv(text)
+                except Exception:  # noqa: BLE001 - a well-formed literal must convert
+                    code = code or 1706
+                    continue
                 nconv += 1
                 if got != literal_eval(text) or (isinstance(got, (list, dict)) and got is last):
                     code = code or 1706
